@@ -3,6 +3,7 @@ package vsim
 import (
 	"errors"
 	"fmt"
+	"io"
 
 	tchannel "github.com/uber/tchannel-go"
 	"github.com/uber/tchannel-go/relay"
@@ -21,6 +22,8 @@ type SpyRelayHost struct {
 	Appends [][2][]byte
 	// StartErr, when set, decides per call whether Start fails (C20: relay-originated errors).
 	StartErr func(cf relay.CallFrame) error
+	// Downstream names the relay nodes after this one on the path.
+	Downstream []string
 	// IterCheck: walk arg2 with the key/value iterator (C18) and record pairs.
 	IterCheck bool
 }
@@ -77,8 +80,31 @@ func (h *SpyRelayHost) Start(cf relay.CallFrame, conn *relay.Conn) (tchannel.Rel
 		}
 	}
 	c.returned = true
-	for _, kv := range h.Appends {
-		cf.Arg2Append(kv[0], kv[1])
+	if len(h.Appends) > 0 {
+		// like a real relay host: only thrift-scheme calls carry key/value arg2
+		if it, err := cf.Arg2Iterator(); err == nil || err == io.EOF {
+			for _, kv := range h.Appends {
+				cf.Arg2Append(kv[0], kv[1])
+			}
+			// tell the oracles what this relay will emit and the destination must see
+			if err == nil && string(it.Key()) == "c" {
+				if cmd, _ := parseCmd(append(append([]byte(nil), it.Value()...), '\n')); cmd != nil {
+					if rec := w.callTag[cmd["tag"]]; rec != nil {
+						if kvs, ok := decodeKV(rec.Req2); ok {
+							rec.Req2Dest = encodeKV(append(kvs, h.Appends...))
+							if rec.Req2Hop == nil {
+								rec.Req2Hop = map[string][]byte{}
+							}
+							rec.Req2Hop[h.name] = rec.Req2Dest
+							for _, o := range h.Downstream {
+								rec.Req2Hop[o] = rec.Req2Dest
+							}
+							rec.Appended = true
+						}
+					}
+				}
+			}
+		}
 	}
 	peer, err := h.ch.GetSubChannel(c.Service).Peers().Get(nil)
 	if err != nil {
